@@ -250,6 +250,19 @@ def check_c17(rep, tier):
         if ans.get("spec_class " + s) == "strict-sane" and out[0] == ["ok"]:
             legal_q.append("spec_legal " + s)
     ans.update(searchchk.spec_queries(legal_q))
+    # the same texts through the UCI front end (`position fen …`, the error path of uci.rs included): never a crash, and
+    # the same verdict as the reader's (for texts the command's own word splitting leaves unchanged)
+    ucases = [["position fen " + s, "obs"] for s in strings]
+    urust, _ = core.run_rust(ucases)
+    for s, out, uo in zip(strings, rust, urust):
+        a = uo[0]
+        stats["position_fen_commands"] += 1
+        if a is None or (a and a[0].startswith("fault:")):
+            rep.violation("impl-vs-spec", f"`position fen` crashed on `{s}`", f"{a}", replay_ops=["position fen " + s])
+            break
+        if " ".join(s.split()) == s and s and (out[0] == ["ok"]) != (bool(a) and a[0].startswith("ok ")):
+            rep.violation("impl-vs-spec", f"`position fen` and the reader disagree on `{s}`", f"reader {out[0]} position {a}", replay_ops=["position fen " + s])
+            break
     for s, case, out, outc in zip(strings, cases, rust, rustc):
         cls = ans.get("spec_class " + s)
         kinds["class_" + str(cls)] += 1
